@@ -7,11 +7,14 @@ import (
 	"encoding/json"
 	"fmt"
 	"io"
+	"log"
 	"math/rand"
 	"net/http"
 	"net/url"
+	"os"
 	"strings"
 	"testing"
+	"time"
 
 	"github.com/imroc/req/v3/internal/verifh"
 )
@@ -22,6 +25,11 @@ type c01Capture struct {
 	req  *http.Request
 	body []byte
 	had  bool
+	// every attempt that reached the transport, rendered canonically at the moment it arrived
+	// (the *http.Request may be mutated afterwards)
+	attempts []string
+	fail     int  // answer 503 to this many further attempts (drives the retry path)
+	maskCT   bool // drop a sniffed / marshaller-chosen Content-Type from the rendering
 }
 
 func (c *c01Capture) RoundTrip(r *http.Request) (*http.Response, error) {
@@ -32,7 +40,18 @@ func (c *c01Capture) RoundTrip(r *http.Request) (*http.Response, error) {
 		c.body, _ = io.ReadAll(r.Body)
 		r.Body.Close()
 	}
-	return &http.Response{StatusCode: 200, Status: "200 OK", Proto: "HTTP/1.1", ProtoMajor: 1, ProtoMinor: 1,
+	h := r.Header.Clone()
+	if c.maskCT {
+		delete(h, "Content-Type")
+	}
+	c.attempts = append(c.attempts, c01ShowURL(r.URL)+" m="+verifh.Hex(r.Method)+" host="+verifh.Hex(r.Host)+" hdr="+c01Hdr(h)+
+		fmt.Sprintf(" cl=%d hasbody=%s ", r.ContentLength, c01b(c.had))+c01Blob(c.body))
+	status := 200
+	if c.fail > 0 {
+		c.fail--
+		status = 503
+	}
+	return &http.Response{StatusCode: status, Status: fmt.Sprintf("%d x", status), Proto: "HTTP/1.1", ProtoMajor: 1, ProtoMinor: 1,
 		Header: http.Header{}, Body: io.NopCloser(bytes.NewReader(nil)), Request: r}, nil
 }
 
@@ -67,9 +86,12 @@ type c01PipeCase struct {
 	bodyKind   string // none | bytes | string | reader | func | json
 	body       []byte
 	allowGet   bool
+	retries    int  // the first `retries` attempts get a 503 and are retried (same *Request)
+	sendAgain  bool // the same *Request is sent a second time after the first Send returned
+	viaSetters bool // headers registered through SetHeader / SetHeaderNonCanonical / SetCommonHeader… instead of assigned maps
 }
 
-func c01GenPipe(r *rand.Rand) *c01PipeCase {
+func c01GenPipe(r *rand.Rand, profile string) *c01PipeCase {
 	tc := &c01PipeCase{}
 	tc.method = verifh.Pick(r, []string{"GET", "GET", "POST", "POST", "PUT", "PATCH", "DELETE", "HEAD", "OPTIONS", "QUERY", "M-SEARCH", "get", ""})
 	if r.Intn(8) == 0 {
@@ -93,22 +115,50 @@ func c01GenPipe(r *rand.Rand) *c01PipeCase {
 	}
 	tc.cHdr = hdr()
 	tc.rHdr = hdr()
-	if tc.cHdr != nil && tc.rHdr != nil && r.Intn(2) == 0 {
-		// overlapping keys: same spelling, other spelling, empty request value
+	if profile == "headers" {
+		// both levels populated, names in every spelling (canonical, lower, mixed, with '_')
+		if tc.cHdr == nil {
+			tc.cHdr = http.Header{}
+		}
+		if tc.rHdr == nil {
+			tc.rHdr = http.Header{}
+		}
+		for i, n := 0, 1+r.Intn(5); i < n; i++ {
+			k := verifh.Pick(r, []string{"x-trace-id", "X-Trace-Id", "x-Trace-ID", "x_feature", "X-Feature", "accept", "Accept", "ACCEPT", "x-a", "X-A", "authorization", "Sec-Ch-Ua", "sec-ch-ua"})
+			tc.cHdr[k] = []string{"client-default-" + k}
+		}
+	}
+	if tc.cHdr != nil && tc.rHdr != nil && (profile == "headers" || r.Intn(2) == 0) {
+		// overlapping keys: same spelling (canonical or not), other spelling, no value, the empty
+		// string (the caller blanks a client default), several values
 		for k := range tc.cHdr {
-			switch r.Intn(4) {
-			case 0:
+			if strings.HasPrefix(k, "__") || strings.EqualFold(k, "Content-Type") {
+				continue
+			}
+			switch r.Intn(7) {
+			case 0, 1:
 				tc.rHdr[k] = []string{"request-wins"}
-			case 1:
-				tc.rHdr[strings.ToLower(k)] = []string{"other-spelling"}
 			case 2:
+				tc.rHdr[strings.ToLower(k)] = []string{"other-spelling"}
+			case 3:
 				tc.rHdr[k] = []string{}
+			case 4:
+				tc.rHdr[k] = []string{""}
+			case 5:
+				tc.rHdr[k] = []string{"", "second"}
 			}
 		}
 	}
 	tc.cCk = c01RandCookies(r, 3)
 	tc.rCk = c01RandCookies(r, 3)
 	tc.allowGet = r.Intn(5) != 0
+	tc.viaSetters = r.Intn(2) == 0
+	switch r.Intn(5) {
+	case 0:
+		tc.retries = 1 + r.Intn(2)
+	case 1:
+		tc.sendAgain = true
+	}
 	switch r.Intn(8) {
 	case 0, 1:
 		tc.bodyKind = "none"
@@ -135,7 +185,40 @@ func c01GenPipe(r *rand.Rand) *c01PipeCase {
 		}
 		tc.body = c01GenBody(n, 1+r.Intn(250), r.Intn(251))
 	}
+	if tc.bodyKind == "reader" {
+		tc.retries, tc.sendAgain = 0, false // an io.Reader body cannot be replayed (the call is refused up front)
+	}
+	if tc.sendAgain && len(tc.cCk) > 0 {
+		// a second Send starts at attempt 0 again and appends the client cookies to Request.Cookies
+		// once more (that is how parseRequestCookie is specified); only retries keep them single
+		tc.sendAgain, tc.retries = false, 1
+	}
 	return tc
+}
+
+// c01SetHeaders registers a header map through the public setters: canonical names with
+// SetHeader / AddHeader-style calls, everything else with the NonCanonical variants. The resulting
+// map equals the given one.
+func c01ViaSetters(h http.Header, set func(k, v string), add func(k, v string), nc func(k, v string)) bool {
+	for k, vs := range h {
+		if len(vs) == 0 || strings.HasPrefix(k, "__") {
+			return false // not expressible through the setters
+		}
+	}
+	for k, vs := range h {
+		canon := http.CanonicalHeaderKey(k) == k
+		for i, v := range vs {
+			switch {
+			case !canon:
+				nc(k, v)
+			case i == 0:
+				set(k, v)
+			default:
+				add(k, v)
+			}
+		}
+	}
+	return true
 }
 
 // TestVerif_C01_pipeline: the real request pipeline (Request.Send: parseRequestHeader,
@@ -143,24 +226,46 @@ func c01GenPipe(r *rand.Rand) *c01PipeCase {
 // captured at the transport boundary vs the Lean model `Merge.buildRequest`.
 func TestVerif_C01_pipeline(t *testing.T) {
 	s := c01New(t, "C01", "pipeline",
-		"API-level request specs: method; URL/base URL/scheme/path maps/query maps from the url lane's generators; client-level headers (nil, empty, 0..6 keys) and request-level headers with overlapping keys in the same and in another spelling, empty request values, Host / Cookie / Content-Type entries; 0..3 client and request cookies with names and values holding spaces, commas, semicolons, quotes, CR/LF, non-ASCII; body none / bytes / string / io.Reader / GetBody func / marshalled map, sizes 0..64 KiB; AllowGetMethodPayload on/off; captured: the *http.Request (method, URL, Host, header map, ContentLength, body bytes); non-trivial = request reached the transport")
+		"API-level request specs: method; URL/base URL/scheme/path maps/query maps from the url lane's generators; client-level headers (nil, empty, 0..6 keys) and request-level headers with overlapping keys in the same (canonical or non-canonical) and in another spelling, no value, the empty string, several values, Host / Cookie / Content-Type entries, assigned as maps or registered through the setters; 0..3 client and request cookies with names and values holding spaces, commas, semicolons, quotes, CR/LF, non-ASCII; body none / bytes / string / io.Reader / GetBody func / marshalled map, sizes 0..64 KiB; AllowGetMethodPayload on/off; a fifth of the requests is RETRIED once or twice (first attempts answered 503) and a fifth is SENT A SECOND TIME through the same *Request: every attempt must be the request the model describes; captured: the *http.Request of every attempt (method, URL, Host, header map, ContentLength, body bytes); non-trivial = request reached the transport")
+	c01LanePipe(t, s, "plain", verifh.N(4000, 100000))
+	s.Need(t, "sent", "err", "cookies", "body:none", "body:bytes", "body:string", "body:reader", "body:func", "body:json", "attempt:2", "attempt:3", "second-send", "via-setters")
+	s.Finish()
+}
+
+// c01LanePipe is shared by C01 (pipeline) and C16 (apimerge: header-focused profile).
+func c01LanePipe(t *testing.T, s *c01Sess, profile string, n int) {
+	log.SetOutput(io.Discard) // net/http logs every sanitised cookie byte
+	defer log.SetOutput(os.Stderr)
 	r := s.Rand()
-	n := verifh.N(4000, 100000)
 	for i := 0; i < n; i++ {
-		tc := c01GenPipe(r)
+		tc := c01GenPipe(r, profile)
 		c := C()
 		capt := &c01Capture{}
 		c.httpClient = &http.Client{Transport: capt}
 		c.AllowGetMethodPayload = tc.allowGet
-		c.Headers = tc.cHdr.Clone()
 		c.Cookies = tc.cCk
 		c.PathParams = tc.u.cPath
 		c.QueryParams = tc.u.cQuery
 		c.BaseURL = tc.u.base
 		c.scheme = tc.u.scheme
 		req := c.R()
-		if tc.rHdr != nil {
-			req.Headers = tc.rHdr.Clone()
+		viaSetters := false
+		if tc.viaSetters && tc.cHdr != nil && tc.rHdr != nil {
+			c2, r2 := http.Header{}, http.Header{}
+			okc := c01ViaSetters(tc.cHdr, func(k, v string) { c2.Set(k, v) }, func(k, v string) { c2.Add(k, v) }, func(k, v string) { c2[k] = append(c2[k], v) })
+			okr := c01ViaSetters(tc.rHdr, func(k, v string) { r2.Set(k, v) }, func(k, v string) { r2.Add(k, v) }, func(k, v string) { r2[k] = append(r2[k], v) })
+			if okc && okr && len(tc.cHdr) > 0 {
+				c01ViaSetters(tc.cHdr, func(k, v string) { c.SetCommonHeader(k, v) }, func(k, v string) { c.Headers.Add(k, v) }, func(k, v string) { c.SetCommonHeaderNonCanonical(k, v) })
+				c01ViaSetters(tc.rHdr, func(k, v string) { req.SetHeader(k, v) }, func(k, v string) { req.Headers.Add(k, v) }, func(k, v string) { req.SetHeaderNonCanonical(k, v) })
+				viaSetters = true
+				s.Count("via-setters")
+			}
+		}
+		if !viaSetters {
+			c.Headers = tc.cHdr.Clone()
+			if tc.rHdr != nil {
+				req.Headers = tc.rHdr.Clone()
+			}
 		}
 		req.Cookies = append([]*http.Cookie(nil), tc.rCk...)
 		req.PathParams = tc.u.rPath
@@ -190,41 +295,37 @@ func TestVerif_C01_pipeline(t *testing.T) {
 		// an in-memory body without any Content-Type gets one from content sniffing / the marshaller
 		// (C17's subject): mask that header on both sides
 		hadCT := (tc.cHdr != nil && tc.cHdr.Get("Content-Type") != "") || (tc.rHdr != nil && tc.rHdr.Get("Content-Type") != "")
+		capt.maskCT = !hadCT
+		if tc.retries > 0 {
+			capt.fail = tc.retries
+			req.SetRetryCount(tc.retries).
+				SetRetryInterval(func(*Response, int) time.Duration { return 0 }).
+				SetRetryCondition(func(resp *Response, err error) bool { return err == nil && resp != nil && resp.StatusCode == 503 })
+		}
+		human := fmt.Sprintf("%q url=%q rpath=%q cpath=%q scheme=%q base=%q cq=%q rq=%q chdr=%q rhdr=%q setters=%v cck=%s rck=%s body=%s/%d allowGet=%v retries=%d again=%v",
+			tc.method, tc.u.rawURL, tc.u.rPath, tc.u.cPath, tc.u.scheme, tc.u.base, tc.u.cQuery, tc.u.rQuery, tc.cHdr, tc.rHdr, viaSetters, c01Cookies(tc.cCk), c01Cookies(tc.rCk), tc.bodyKind, len(tc.body), tc.allowGet, tc.retries, tc.sendAgain)
+		s.Begin(fmt.Sprintf("pipe-%d", i), human)
 		var err error
-		p, bad := verifh.Safely(func() { _, err = req.Send(tc.method, tc.u.rawURL) })
-		human := fmt.Sprintf("%q url=%q rpath=%q cpath=%q scheme=%q base=%q cq=%q rq=%q chdr=%q rhdr=%q cck=%s rck=%s body=%s/%d allowGet=%v",
-			tc.method, tc.u.rawURL, tc.u.rPath, tc.u.cPath, tc.u.scheme, tc.u.base, tc.u.cQuery, tc.u.rQuery, tc.cHdr, tc.rHdr, c01Cookies(tc.cCk), c01Cookies(tc.rCk), tc.bodyKind, len(tc.body), tc.allowGet)
+		p, bad := verifh.Safely(func() {
+			_, err = req.Send(tc.method, tc.u.rawURL)
+			if err == nil && tc.sendAgain {
+				_, err = req.Send(tc.method, tc.u.rawURL)
+			}
+		})
 		if bad {
 			s.Crash(human, human, p, "")
 			continue
 		}
-		ans := "err"
 		class := ""
 		if err == nil && capt.req != nil && capt.req.URL.User != nil {
 			// net/http.Client.Do turns URL userinfo into an Authorization header (base64: external)
 			s.Count("skipped:userinfo")
 			continue
 		}
-		if err == nil && capt.req != nil {
-			h := capt.req.Header.Clone()
-			if !hadCT {
-				delete(h, "Content-Type")
-			}
-			ans = c01ShowURL(capt.req.URL) + " m=" + verifh.Hex(capt.req.Method) + " host=" + verifh.Hex(capt.req.Host) + " hdr=" + c01Hdr(h) +
-				fmt.Sprintf(" cl=%d hasbody=%s ", capt.req.ContentLength, c01b(capt.had)) + c01Blob(capt.body)
-			s.Count("sent")
-			s.Count("body:" + tc.bodyKind)
-			if len(tc.cCk)+len(tc.rCk) > 0 {
-				s.Count("cookies")
-			}
-		} else {
-			s.Count("err")
-		}
 		if c01RawPathDropped(tc.u, req, err) {
 			class = "rawpath-dropped"
 		}
 		// the model gets the marshalled bytes as an in-memory body, and the masked Content-Type
-		mh := tc.rHdr
 		line := "c01pipe " + verifh.Hex(tc.method) + " " + verifh.Hex(tc.u.rawURL) + " " + c01PMap(tc.u.rPath) + " " + c01PMap(tc.u.cPath) + " " +
 			verifh.Hex(tc.u.scheme) + " " + verifh.Hex(tc.u.base) + " " + c01QMap(tc.u.cQuery) + " " + c01QMap(tc.u.rQuery) + " " +
 			func() string {
@@ -232,12 +333,33 @@ func TestVerif_C01_pipeline(t *testing.T) {
 					return "nil"
 				}
 				return c01Hdr(tc.cHdr)
-			}() + " " + c01Hdr(mh) + " " + c01Cookies(tc.cCk) + " " + c01Cookies(tc.rCk) + " " + modelKind + " " + verifh.Hex(string(tc.body)) + " " + c01b(tc.allowGet)
-		// (bodies here stay ≤ 64 KiB + 1, hex is fine)
-		s.Case(line, ans, true, class, err == nil, human)
+			}() + " " + c01Hdr(tc.rHdr) + " " + c01Cookies(tc.cCk) + " " + c01Cookies(tc.rCk) + " " + modelKind + " " + verifh.Hex(string(tc.body)) + " " + c01b(tc.allowGet)
+		if err != nil || len(capt.attempts) == 0 {
+			s.Count("err")
+			s.Case(line, "err", true, class, false, human)
+			continue
+		}
+		s.Count("sent")
+		s.Count("body:" + tc.bodyKind)
+		if len(tc.cCk)+len(tc.rCk) > 0 {
+			s.Count("cookies")
+		}
+		wantAttempts := 1 + tc.retries
+		if tc.sendAgain {
+			wantAttempts = 2
+			s.Count("second-send")
+		}
+		if len(capt.attempts) != wantAttempts {
+			s.Observe(fmt.Sprintf("pipe-%d", i), false, "", false, human, fmt.Sprintf("%d attempts reached the transport, want %d", len(capt.attempts), wantAttempts))
+		}
+		// EVERY attempt — first, retried, sent again — must be the request the calls describe
+		for k, a := range capt.attempts {
+			if k > 0 {
+				s.Count(fmt.Sprintf("attempt:%d", k+1))
+			}
+			s.Case(line, a, true, class, k == 0, fmt.Sprintf("attempt %d of %d: %s", k+1, len(capt.attempts), human))
+		}
 	}
-	s.Need(t, "sent", "err", "cookies", "body:none", "body:bytes", "body:string", "body:reader", "body:func", "body:json")
-	s.Finish()
 }
 
 var _ = url.Parse
